@@ -47,6 +47,12 @@ def falsy(v): return not v
 def truthy(v): return bool(v)
 class UserError(Exception):
     """Raised by generated user callables (exempt from the crash-freedom property)."""
+def not13(v):
+    if v == 13 and not isinstance(v, bool):
+        raise ValidationError("unlucky 13")
+def not_abc(v):
+    if v == "abc":
+        raise ValidationError("no abc")
 '''
 
 ALIASERS = {
@@ -95,7 +101,8 @@ def texpr(t: Dict[str, Any], prog: Dict[str, Any]) -> str:
             return f"Annotated[{u}, discriminator({disc['alias']!r})]"
         return u
     if k == "ann":
-        return f"Annotated[{texpr(t['of'], prog)}, {cexpr(t['c'])}]"
+        md = ([cexpr(t["c"])] if t.get("c") else []) + ([f"validators({t['val']})"] if t.get("val") else [])
+        return f"Annotated[{texpr(t['of'], prog)}, {', '.join(md)}]"
     if k == "unsup":
         return f"Annotated[{texpr(t['of'], prog)}, Unsupported]"
     if k in ("list", "set", "frozenset"):
